@@ -34,7 +34,7 @@ RULE = ("scenarios: job document / project document writes (old document absent,
         "entry of the descriptor); any entry on a document/cache/temp name outside the episodes, any entry the model "
         "translation does not consume, a failed replay self-check, a scenario without a write and a fault-case count "
         "different from the try body's length are emitted as mismatching cases; input_distribution['scenarios-"
-        "attempted'] counts scenarios (quick 165, thorough 270), every scenario yields >= 1 case or a harness error.  non-trivial: the old file "
+        "attempted'] counts scenarios (quick 174, thorough 279), every scenario yields >= 1 case or a harness error.  non-trivial: the old file "
         "exists or the write has >= 1 chunk of >= 2 bytes; distinct by (scenario, episode)")
 TRUSTED = [
     "os.replace is atomic w.r.t. concurrent open; a crash preserves the order of completed calls; an open file keeps its inode",
